@@ -173,7 +173,7 @@ theorem regularPick_noForeign (tries N : Nat) (G : BipG) (A B : List Nat) (i : N
 /-! ### the loop -/
 /-- invariant of `for i in range(l*d)` at the start of iteration `i` -/
 structure RegInv (l r N : Nat) (A0 B0 : List Nat) (i : Nat) (G : BipG) (A B : List Nat) : Prop where
-  inv : G.Inv
+  inv : G.InvGB
   hl : G.l = l
   hr : G.r = r
   lenA : A.length = N
@@ -212,7 +212,7 @@ theorem RegInv.step {l r N A0 B0 i G A B} (hinv : RegInv l r N A0 B0 i G A B)
     · rw [hfree] at he; cases he
     · simpa using hes
   obtain ⟨hl', hr'⟩ := BipG.sides_addEdge G G' _ _ hadd
-  refine ⟨BipG.inv_addEdge G G' _ _ hinv.inv hadd, by rw [hl', hinv.hl], by rw [hr', hinv.hr],
+  refine ⟨BipG.inv_addEdge_gb G G' _ _ hinv.inv hadd, by rw [hl', hinv.hl], by rw [hr', hinv.hr],
     by rw [length_swapAt, hinv.lenA], by rw [length_swapAt, hinv.lenB], ?_, ?_, ?_⟩
   · intro x; rw [count_swapAt A i ea x (by rw [hinv.lenA]; omega) (by rw [hinv.lenA]; omega), hinv.cntA]
   · intro x; rw [count_swapAt B i eb x (by rw [hinv.lenB]; omega) (by rw [hinv.lenB]; omega), hinv.cntB]
@@ -316,13 +316,13 @@ theorem RegInv.degrees {l r N A0 B0 G A B} (h : RegInv l r N A0 B0 N G A B) :
 
 theorem regInv_init (l r N : Nat) (A0 B0 : List Nat) (hA : A0.length = N) (hB : B0.length = N) :
     RegInv l r N A0 B0 0 (BipG.init l r) A0 B0 :=
-  ⟨BipG.inv_init l r, rfl, rfl, hA, hB, fun _ => rfl, fun _ => rfl, by simp [BipG.init]⟩
+  ⟨BipG.inv_init_gb l r, rfl, rfl, hA, hB, fun _ => rfl, fun _ => rfl, by simp [BipG.init]⟩
 
 /-- `bipartite_random_regular(l, r, d)`, whenever it returns and whatever was drawn (any number
 of restarts): every left vertex has degree `d`, every right vertex has degree `l*d/r` -/
 theorem randomRegular_ok (l r d : Int) (fuel : Nat) (ds rest : List Draw) (G : BipG)
     (h : randomRegular l r d fuel ds = .ok G rest) :
-    0 ≤ l ∧ 0 < r ∧ 0 ≤ d ∧ (l * d) % r = 0 ∧ G.Inv ∧ G.l = l.toNat ∧ G.r = r.toNat ∧
+    0 ≤ l ∧ 0 < r ∧ 0 ≤ d ∧ (l * d) % r = 0 ∧ G.InvGB ∧ G.l = l.toNat ∧ G.r = r.toNat ∧
     (∀ u, 1 ≤ u → u ≤ G.l → G.leftDeg u = d.toNat) ∧
     (∀ v, 1 ≤ v → v ≤ G.r → G.rightDeg v = (l * d / r).toNat) := by
   induction fuel generalizing ds with
